@@ -93,4 +93,147 @@ theorem maxmin_feasible (S : Sys) (hwf : WF S) (val0 : Nat → Rat) (fuel : Nat)
     rw [(hframe v hv).1]
     exact hi.2.1 v hv
 
+
+/-! ### non-vacuity: a concrete well-formed system (summing + FATPIPE constraint, a bounded variable) -/
+
+/-- c0: SHARED, capacity 10, elements v2 (w 1), v1 (w 1), v0 (w 1);  c1: FATPIPE, capacity 4, elements v2 (w 2), v1 (w 1);
+v0: penalty 1, bound 1;  v1: penalty 1, no bound;  v2: penalty 2, no bound -/
+def exSys : Sys :=
+  { cnst := fun c => if c = 0 then { bound := 10, fatpipe := false, elems := [(2, 1), (1, 1), (0, 1)] }
+                     else if c = 1 then { bound := 4, fatpipe := true, elems := [(2, 2), (1, 1)] }
+                     else { bound := 0, fatpipe := false, elems := [] },
+    var := fun v => if v = 0 then { penalty := 1, bound := 1, cnsts := [(0, 1)] }
+                    else if v = 1 then { penalty := 1, bound := -1, cnsts := [(0, 1), (1, 1)] }
+                    else if v = 2 then { penalty := 2, bound := -1, cnsts := [(0, 1), (1, 2)] }
+                    else { penalty := 0, bound := -1, cnsts := [] },
+    active := [0, 1], vorder := [2, 1, 0] }
+
+theorem exSys_wf : WF exSys := by
+  constructor
+  · decide
+  · intro c hc; simp [exSys] at hc; rcases hc with rfl | rfl <;> simp [exSys] <;> norm_num
+  · intro c hc e he; simp [exSys] at hc
+    rcases hc with rfl | rfl <;> simp [exSys] at he <;> rcases he with rfl | rfl | rfl <;> simp [exSys] <;> norm_num
+  · intro c hc e he; simp [exSys] at hc
+    rcases hc with rfl | rfl <;> simp [exSys] at he <;> rcases he with rfl | rfl | rfl <;> norm_num
+  · intro v e he
+    by_cases h0 : v = 0
+    · subst h0; simp [exSys] at he; subst he; norm_num
+    · by_cases h1 : v = 1
+      · subst h1; simp [exSys] at he; rcases he with rfl | rfl <;> norm_num
+      · by_cases h2 : v = 2
+        · subst h2; simp [exSys] at he; rcases he with rfl | rfl <;> norm_num
+        · simp [exSys, h0, h1, h2] at he
+  · intro c hc v hp
+    simp [exSys] at hc
+    by_cases h0 : v = 0
+    · subst h0; rcases hc with rfl | rfl <;> simp [exSys, wOf, sumBy]
+    · by_cases h1 : v = 1
+      · subst h1; rcases hc with rfl | rfl <;> simp [exSys, wOf, sumBy]
+      · by_cases h2 : v = 2
+        · subst h2; rcases hc with rfl | rfl <;> simp [exSys, wOf, sumBy]
+        · simp [exSys, h0, h1, h2] at hp
+
+/-- the hypotheses of `maxmin_feasible` are satisfiable: the solver returns on `exSys` (bound round for v0, then the
+FATPIPE constraint saturates v1/v2 … ) with values v0 = 1, v1 = 4, v2 = 2 -/
+example : (maxminSolve exSys 0 4 (fun _ => 0)).map (fun st => (st.value 0, st.value 1, st.value 2)) = some (1, 4, 2) := by
+  decide +kernel
+
+/-! ### FairBottleneck -/
+
+/-- DESIGN §9-D2: one FATPIPE constraint of capacity 10, variable 0 bounded by 1, variable 1 unbounded (weights 1,
+penalties 1; `enabled_element_set_` order = [v1, v0], `variable_set` order = [v1, v0]) -/
+def d2Sys : Sys :=
+  { cnst := fun c => if c = 0 then { bound := 10, fatpipe := true, elems := [(1, 1), (0, 1)] }
+                     else { bound := 0, fatpipe := false, elems := [] },
+    var := fun v => if v = 0 then { penalty := 1, bound := 1, cnsts := [(0, 1)] }
+                    else if v = 1 then { penalty := 1, bound := -1, cnsts := [(0, 1)] }
+                    else { penalty := 0, bound := -1, cnsts := [] },
+    active := [0], vorder := [1, 0] }
+
+theorem d2Sys_wf : WF d2Sys := by
+  constructor
+  · decide
+  · intro c hc; simp [d2Sys] at hc; subst hc; simp [d2Sys]
+  · intro c hc e he; simp [d2Sys] at hc; subst hc; simp [d2Sys] at he; rcases he with rfl | rfl <;> simp [d2Sys]
+  · intro c hc e he; simp [d2Sys] at hc; subst hc; simp [d2Sys] at he; rcases he with rfl | rfl <;> norm_num
+  · intro v e he
+    by_cases h0 : v = 0
+    · subst h0; simp [d2Sys] at he; subst he; norm_num
+    · by_cases h1 : v = 1
+      · subst h1; simp [d2Sys] at he; subst he; norm_num
+      · simp [d2Sys, h0, h1] at he
+  · intro c hc v hp
+    simp [d2Sys] at hc; subst hc
+    by_cases h0 : v = 0
+    · subst h0; simp [d2Sys, wOf, sumBy]
+    · by_cases h1 : v = 1
+      · subst h1; simp [d2Sys, wOf, sumBy]
+      · simp [d2Sys, h0, h1] at hp
+
+/-
+Full-strength statement — FALSE on the current code:
+  theorem fb_feasible (S) (hwf : WF S) (val0 fuel st) (h : fbSolve S 0 fuel val0 = some st) :
+      ∀ c ∈ S.active, load S st.value c ≤ (S.cnst c).bound
+In `FairBottleneck::do_solve` the FATPIPE branch of the third loop does `usage_ = min(usage_, w * mu)` over the
+elements and subtracts that *minimum* increment from remaining_, while the rate of every still-growing variable may
+have grown by up to the *previous* remaining_: the capacity left is over-estimated as soon as the increments differ
+(a variable stopped by its bound, or by another constraint).
+-/
+
+/-- the counterexample (by kernel evaluation of the model on the concrete witness): FairBottleneck gives the
+unbounded variable the rate 55 = 10 + 9 + … + 1 on a FATPIPE constraint of capacity 10 -/
+theorem fb_feasible_counterexample :
+    ∃ st, fbSolve d2Sys 0 12 (fun _ => 0) = some st ∧ st.value 0 = 1 ∧ st.value 1 = 55 ∧
+      (d2Sys.cnst 0).bound < load d2Sys st.value 0 := by
+  have h : (fbSolve d2Sys 0 12 (fun _ => 0)).map (fun st => (st.value 0, st.value 1, load d2Sys st.value 0)) = some (1, 55, 55) := by
+    decide +kernel
+  cases hs : fbSolve d2Sys 0 12 (fun _ => 0) with
+  | none => rw [hs] at h; simp at h
+  | some st =>
+    rw [hs] at h; simp at h
+    refine ⟨st, rfl, h.1, h.2.1, ?_⟩
+    rw [h.2.2]; simp [d2Sys]; norm_num
+
+/-- on the same system maxmin is feasible (instance of `maxmin_feasible`): 1 and 10 -/
+example : (maxminSolve d2Sys 0 4 (fun _ => 0)).map (fun st => (st.value 0, st.value 1)) = some (1, 10) := by
+  decide +kernel
+
+/-! ### BMF: the acceptance predicate implies the property (Eigen's fixed point is not modelled) -/
+
+/-- `bmfAccept` (the monitor applied to every BMF answer) is, by definition, capacity/bounds feasibility together with
+"every consuming enabled variable is at its bound or has the largest share on a saturated constraint" -/
+theorem bmfAccept_sound (S : Sys) (tol : Rat) (val : Nat → Rat) (h : bmfAccept S tol val = true) :
+    (∀ c ∈ S.active, load S val c ≤ (S.cnst c).bound * (1 + tol)) ∧
+    (∀ v ∈ S.vorder, 0 ≤ val v ∧ ((S.var v).penalty ≤ 0 → val v = 0) ∧
+      (0 < (S.var v).bound → consumes S v = true → val v ≤ (S.var v).bound * (1 + tol))) ∧
+    (∀ v ∈ S.vorder, 0 < (S.var v).penalty → consumes S v = true →
+      (0 < (S.var v).bound ∧ (S.var v).bound * (1 - tol) ≤ val v) ∨
+      ∃ e ∈ (S.var v).cnsts, 0 < e.2 ∧ bmfShareMax S tol val v e.1 e.2 = true) := by
+  unfold bmfAccept at h
+  simp only [Bool.and_eq_true] at h
+  obtain ⟨hf, hb⟩ := h
+  unfold feasible at hf
+  simp only [Bool.and_eq_true, List.all_eq_true, decide_eq_true_eq] at hf
+  refine ⟨hf.1, ?_, ?_⟩
+  · intro v hv
+    have := hf.2 v hv
+    refine ⟨this.1.1, ?_, ?_⟩
+    · intro hp
+      have h2 := this.1.2
+      simp only [hp, if_true, decide_eq_true_eq] at h2
+      exact h2
+    · intro hb hc
+      have h3 := this.2
+      simp only [hb, hc, and_self, if_true, decide_eq_true_eq] at h3
+      exact h3
+  · intro v hv hp hc
+    unfold bmfFair at hb
+    simp only [List.all_eq_true] at hb
+    have := hb v hv
+    simp only [hp, hc, and_self, if_true, Bool.or_eq_true, Bool.and_eq_true, decide_eq_true_eq, List.any_eq_true] at this
+    rcases this with h | ⟨e, he, hw, hs⟩
+    · exact Or.inl h
+    · exact Or.inr ⟨e, he, hw, hs⟩
+
 end SgVerif.C15
